@@ -5,7 +5,7 @@ set -u
 V=/verif
 REPO=${VERIF_REPO:-/repo}
 export GOFLAGS=-mod=mod GOPROXY=off GOSUMDB=off GOTOOLCHAIN=local CGO_ENABLED=0
-what="${*:-gen coq ocaml harness}"
+what="${*:-harness gen coq ocaml}"
 mkdir -p $V/work
 exec 9>$V/work/.build.lock
 flock 9
@@ -15,6 +15,9 @@ case $w in
 gen)
   ( cd $V/translators && { [ bin/gen -nt main.go ] && [ bin/gen -nt arch.go ] && [ bin/gen -nt more.go ] 2>/dev/null || go build -o bin/gen . ; } ) || { echo "BUILD-FAIL translators"; rc=1; }
   $V/translators/bin/gen "$REPO" $V/coq/Gen > $V/work/gen.log 2>&1 || { echo "GEN-FAIL (see work/gen.log)"; cat $V/work/gen.log; rc=1; }
+  if [ -x $V/harness/bin/harness ]; then
+    VERIF_REPO="$REPO" timeout 600 $V/harness/bin/harness GEN --out $V/coq/Gen >> $V/work/gen.log 2>&1 || { echo "GEN-FAIL harness GEN (see work/gen.log)"; tail -5 $V/work/gen.log; rc=1; }
+  fi
   ;;
 coq)
   cd $V/coq
